@@ -1259,6 +1259,13 @@ func ruleConstructors(c *Ctx) {
 					problem = ""
 				}
 			}
+			// strconv.AppendInt(nil, int64(v), 10)
+			if setBytes != nil && setBytes.Kind == "call" && setBytes.Name == "strconv.AppendInt" && len(setBytes.Args) == 3 {
+				a := setBytes.Args
+				if a[0].Kind == "const" && isNilConst(a[0].C) && a[2].Kind == "const" && isConstIntVal(a[2].C, 10) {
+					problem = ""
+				}
+			}
 		case "NewFloatMessage":
 			problem = "float not formatted with strconv.FormatFloat"
 			if isBytesConv(setBytes) && setBytes.Args[0].Kind == "call" && setBytes.Args[0].Name == "strconv.FormatFloat" && len(setBytes.Args[0].Args) == 4 {
@@ -1282,6 +1289,28 @@ func ruleConstructors(c *Ctx) {
 					problem = ""
 				default:
 					problem = fmt.Sprintf("FormatFloat(%q, %d) does not round-trip every finite float64", rune(f), prec)
+				}
+			}
+			// strconv.AppendFloat(nil, v, fmt, prec, 64)
+			if setBytes != nil && setBytes.Kind == "call" && setBytes.Name == "strconv.AppendFloat" && len(setBytes.Args) == 5 {
+				a := setBytes.Args
+				ci := func(v *sval) int64 {
+					if v.Kind != "const" {
+						return -12345
+					}
+					k, _ := constInt(v.C)
+					return k
+				}
+				f, prec, bits := ci(a[2]), ci(a[3]), ci(a[4])
+				switch {
+				case !(a[0].Kind == "const" && isNilConst(a[0].C)) || a[1].Kind != "param":
+					problem = "AppendFloat is not applied to nil and the argument itself"
+				case bits != 64:
+					problem = "AppendFloat bitSize is not 64: float64 values are rounded to float32"
+				case prec == -1, (f == 'e' || f == 'E' || f == 'g' || f == 'G') && prec >= 17:
+					problem = ""
+				default:
+					problem = fmt.Sprintf("AppendFloat(%q, %d) does not round-trip every finite float64", rune(f), prec)
 				}
 			}
 		default:
